@@ -968,6 +968,11 @@ pub fn exec(line: &str, rec: &mut Recorder) {
             }
             None => rec.stat("skipped.unparsable-case"),
         },
+        Some(&"hl") => {
+            if e2e::exec_hl(&t, rec).is_none() {
+                rec.stat("skipped.unparsable-case");
+            }
+        }
         Some(&"srv") => {
             if e2e::exec_srv(&t, rec).is_none() {
                 rec.stat("skipped.unparsable-case");
@@ -1471,6 +1476,129 @@ fn build_proofs(z: &ZoneSpec) -> Vec<Built> {
     out
 }
 
+fn add1(h: &[u8]) -> Vec<u8> {
+    let mut v = h.to_vec();
+    for b in v.iter_mut().rev() {
+        if *b == 255 {
+            *b = 0;
+        } else {
+            *b += 1;
+            break;
+        }
+    }
+    v
+}
+
+fn sub1(h: &[u8]) -> Vec<u8> {
+    let mut v = h.to_vec();
+    for b in v.iter_mut().rev() {
+        if *b == 0 {
+            *b = 255;
+        } else {
+            *b -= 1;
+            break;
+        }
+    }
+    v
+}
+
+/// Boundary family: targets whose hash EQUALS the owner hash / the Next field of a record, and synthetic links
+/// whose owner / next are the target hash ± 1 in the last octet.  Expectation by construction: a link covers a
+/// hash only if it lies STRICTLY inside (equal to Next ⇒ that name exists; equal to the owner ⇒ matched).
+fn boundary(rec: &mut Recorder, z: &ZoneSpec) {
+    let ch = chain_h(z);
+    let h = |n: &Name| nsec3_hash(&z.salt, n, z.iterations);
+    let apex_l = lbls(&z.apex);
+    // names of the chain by hash
+    let mut by_hash: BTreeMap<Vec<u8>, Name> = BTreeMap::new();
+    for n in z.names.keys() {
+        for k in apex_l.len()..=n.len() {
+            let nm = name_of(&suffix(n, k));
+            by_hash.insert(h(&nm), nm);
+        }
+    }
+    let find_match = |n: &Name| ch.iter().position(|(oh, _)| *oh == h(n));
+    let find_cover = |n: &Name| ch.iter().position(|(oh, r)| inside(oh, &r.next, &h(n)));
+    let mk = |q: &Name, qtype: u16, rcode: u16, wl: Option<u8>, recs: Vec<RecIn>| Case { q: q.clone(), qtype, soa: Some(z.apex.clone()), rcode, wl, soft: 100, hard: 500, recs };
+    let clear = |mut r: RecIn, oo: bool| {
+        r.opt_out = oo;
+        r
+    };
+    // ---- (a)/(b): real names whose hash equals an owner hash or a Next field (every record, incl. the last one)
+    for (i, (_, p)) in ch.iter().enumerate() {
+        let Some(t) = by_hash.get(&p.next).cloned() else { continue };
+        if t == z.apex || t.num_labels() == 0 {
+            continue; // the apex is never a next closer name
+        }
+        let parent = t.base_name();
+        let last = i + 1 == ch.len();
+        let tag = if last { "boundary.next-eq-last-record" } else { "boundary.next-eq" };
+        let why = format!("the hash of {t} EQUALS the Next Hashed Owner Name of the {} record given as its cover: that name exists, it is not covered", if last { "last (wrap-around)" } else { "preceding" });
+        // name error for T (T's own record withheld)
+        if let (Some(ce), Some(wc)) = (find_match(&parent), find_cover(&parent.prepend_label("*").unwrap())) {
+            let mut recs = vec![clear(ch[ce].1.clone(), false), clear(p.clone(), false)];
+            if wc != ce && wc != i {
+                recs.push(clear(ch[wc].1.clone(), false));
+            }
+            run_expect(&mk(&t, T_A, 3, None, recs), rec, tag, Some(false), None, &why);
+        }
+        // Opt-Out DS for T with the preceding record as Opt-Out "cover"
+        run_expect(&mk(&t, T_DS, 0, None, vec![clear(p.clone(), true)]), rec, tag, Some(false), None, &why);
+        // wildcard answer with T as next closer name
+        run_expect(&mk(&t, T_A, 0, Some(parent.num_labels()), vec![clear(p.clone(), false)]), rec, tag, Some(false), None, &why);
+        // (a) the record OWNED by T offered as cover of T: matched, not covered
+        if let Some(own) = find_match(&t) {
+            let o = clear(ch[own].1.clone(), true);
+            run_expect(&mk(&t, T_A, 0, Some(parent.num_labels()), vec![o.clone()]), rec, "boundary.owner-eq", Some(false), None, &format!("the hash of {t} EQUALS the owner hash of the record offered as its cover: a matching record covers nothing"));
+            if let Some(ce) = find_match(&parent) {
+                run_expect(&mk(&t, T_A, 3, None, vec![clear(ch[ce].1.clone(), false), o.clone()]), rec, "boundary.owner-eq", Some(false), None, &format!("name error for {t} although the record matching it is present"));
+            }
+        }
+    }
+    // ---- (c): synthetic links around the hash of a name that does not exist, owner / next = hash, hash ± 1, ± 2
+    let x = name_of(&rel_name(&z.apex, &[b"x", b"b"])); // next closer of x.b.<apex> below the existing b.<apex>
+    let hx = h(&x);
+    let (m1, m2, m3, p1, p2, p3) = (sub1(&hx), sub1(&sub1(&hx)), sub1(&sub1(&sub1(&hx))), add1(&hx), add1(&add1(&hx)), add1(&add1(&add1(&hx))));
+    let links: Vec<(Vec<u8>, Vec<u8>)> = vec![
+        (m1.clone(), p1.clone()),
+        (m2.clone(), p2.clone()),
+        (hx.clone(), p1.clone()),
+        (m1.clone(), hx.clone()),
+        (p1.clone(), p2.clone()),
+        (m2.clone(), m1.clone()),
+        (m1.clone(), m3.clone()), // wrap-around link that really covers (hash above the owner)
+        (p3.clone(), p1.clone()), // wrap-around link that really covers (hash below next)
+        (p1.clone(), m1.clone()), // wrap-around link that does not cover
+        (p3.clone(), hx.clone()), // wrap-around link whose next equals the hash
+        (hx.clone(), m3.clone()), // wrap-around link owned by the hash
+    ];
+    let b_name = name_of(&rel_name(&z.apex, &[b"b"]));
+    let wlb = b_name.num_labels();
+    for (o, n) in links {
+        let covered = o != hx && inside(&o, &n, &hx);
+        let s = RecIn { owner: z.apex.prepend_label(&b32(&o)[..]).unwrap(), next: n.clone(), opt_out: false, iterations: z.iterations, salt: z.salt.clone(), types: vec![T_A, T_RRSIG] };
+        let why = format!("synthetic link {} -> {} around H({x}) = {}: the hash lies {} it", hex(&o), hex(&n), hex(&hx), if covered { "strictly inside" } else { "NOT strictly inside" });
+        // wildcard answer: the next closer cover alone decides
+        run_expect(&mk(&x, T_A, 0, Some(wlb), vec![s.clone()]), rec, "boundary.plusminus", Some(covered), None, &why);
+        // Opt-Out DS for x.b.<apex>: a link OWNED by the hash is a matching record without DS — a plain NODATA proof
+        let ds_ok = covered || o == hx;
+        run_expect(&mk(&x, T_DS, 0, None, vec![clear(s.clone(), true)]), rec, "boundary.plusminus", Some(ds_ok), None, &if o == hx { format!("link owned by H({x}): it matches QNAME and its bitmap has no DS") } else { why.clone() });
+        // name error: closest encloser b.<apex> (genuine), the synthetic link for the next closer, the true cover of *.b? (exists: use
+        // the query below a.<apex> instead, where no wildcard exists)
+        let xa = name_of(&rel_name(&z.apex, &[b"x", b"a"]));
+        let hxa = h(&xa);
+        let (o2, n2) = (if o == hx { hxa.clone() } else if o < hx { sub1(&hxa) } else { add1(&hxa) }, if n == hx { hxa.clone() } else if n < hx { sub1(&hxa) } else { add1(&hxa) });
+        let cov2 = o2 != hxa && inside(&o2, &n2, &hxa);
+        if let (Some(ce), Some(wc)) = (find_match(&name_of(&rel_name(&z.apex, &[b"a"]))), find_cover(&name_of(&rel_name(&z.apex, &[b"*", b"a"])))) {
+            let s2 = RecIn { owner: z.apex.prepend_label(&b32(&o2)[..]).unwrap(), next: n2.clone(), opt_out: false, iterations: z.iterations, salt: z.salt.clone(), types: vec![T_A, T_RRSIG] };
+            let recs = vec![clear(ch[ce].1.clone(), false), s2, clear(ch[wc].1.clone(), false)];
+            // a genuine record of the set may cover the next closer name all the same; a link owned by the hash matches QNAME
+            let cov2 = o2 != hxa && (cov2 || [ce, wc].iter().any(|i| inside(&ch[*i].0, &ch[*i].1.next, &hxa)));
+            run_expect(&mk(&xa, T_A, 3, None, recs), rec, "boundary.plusminus", Some(cov2), None, &format!("name error for {xa}: synthetic link {} -> {} around its hash {}: {} it", hex(&o2), hex(&n2), hex(&hxa), if cov2 { "strictly inside" } else { "NOT strictly inside" }));
+        }
+    }
+}
+
 fn permutations(n: usize) -> Vec<Vec<usize>> {
     fn go(cur: &mut Vec<usize>, used: &mut Vec<bool>, n: usize, out: &mut Vec<Vec<usize>>) {
         if cur.len() == n {
@@ -1585,6 +1713,11 @@ fn limits_block(rec: &mut Recorder) {
 fn directed(rec: &mut Recorder) {
     let zones = [directed_zone("z.", vec![], 0), directed_zone("a.b.", vec![0xab, 0xcd], 2), directed_zone("z.", vec![7], 1), directed_zone("a.b.", vec![], 0)];
     for z in &zones {
+        boundary(rec, z);
+        // the same with the secure delegation e.<apex> (NS + DS): the record preceding it must not prove "no DS"
+        let mut zd = z.clone();
+        zd.names.insert(rel_name(&zd.apex, &[b"e"]), [T_NS, T_DS].into_iter().collect());
+        boundary(rec, &zd);
         let proofs = build_proofs(z);
         rec.stat_n("directed.proofs-built", proofs.len() as u64);
         for b in &proofs {
@@ -1607,6 +1740,56 @@ fn directed(rec: &mut Recorder) {
                     };
                     run_expect(&c, rec, "optmix", Some(es), None, &why);
                 }
+            }
+            // ---- bitmap: the type bitmap of each record the proof relies on (closest encloser, QNAME match,
+            //      wildcard match) — RFC 5155 §8.3, RFC 6840 §4.1, §8.5, §8.7
+            {
+                let mut genuine = b.case.clone();
+                for (i, r) in genuine.recs.iter_mut().enumerate() {
+                    r.opt_out = b.kind == PK::DsOptOut && Some(i) == b.decisive;
+                }
+                let qt = genuine.qtype;
+                // (role index in recs, bitmap, expected Secure, why)
+                let mut variants: Vec<(usize, Vec<u16>, bool, String)> = vec![];
+                match b.kind {
+                    PK::NxDomain | PK::WildNoData | PK::DsOptOut => {
+                        // record 0 matches the closest encloser
+                        for (ts, ok) in [(vec![T_NS], false), (vec![T_NS, T_DS], false), (vec![T_DNAME], false), (vec![T_NS, T_SOA], true), (vec![T_A, T_DNAME], false), (vec![], true)] {
+                            let ok = ok || b.kind == PK::DsOptOut; // the Opt-Out DS check does not use the closest encloser record
+                            variants.push((0, ts.clone(), ok, format!("closest encloser record with bitmap {ts:?} (RFC 5155 §8.3: NS without SOA, or DNAME, must not be used)")));
+                        }
+                    }
+                    _ => {}
+                }
+                if b.kind == PK::Match {
+                    for (ts, ok) in [(vec![qt], false), (vec![T_CNAME], false), (vec![T_A, qt], false), (vec![T_NS], false), (vec![T_NS, T_SOA], true), (vec![], true), (vec![T_A], true)] {
+                        variants.push((0, ts.clone(), ok, format!("record matching QNAME with bitmap {ts:?}, QTYPE {qt} (§8.5: neither QTYPE nor CNAME; RFC 6840 §4.1: not an ancestor delegation unless QTYPE = DS)")));
+                    }
+                }
+                if b.kind == PK::WildNoData {
+                    let w = genuine.recs.len() - 1; // the record matching the wildcard is the last one built
+                    for (ts, ok) in [(vec![qt], false), (vec![T_CNAME], false), (vec![T_A, qt], false), (vec![T_A], true), (vec![], true)] {
+                        variants.push((w, ts.clone(), ok, format!("record matching the wildcard at the closest encloser with bitmap {ts:?}, QTYPE {qt} (§8.7)")));
+                    }
+                }
+                for (i, ts, ok, why) in variants {
+                    if i >= genuine.recs.len() {
+                        continue;
+                    }
+                    let mut c = genuine.clone();
+                    c.recs[i].types = ts;
+                    run_expect(&c, rec, "bitmap", Some(ok), None, &why);
+                    // the same record for a DS query: an ancestor-delegation record matching QNAME does prove "no DS"
+                    if b.kind == PK::Match && c.recs[i].types == vec![T_NS] {
+                        let mut d = c.clone();
+                        d.qtype = T_DS;
+                        run_expect(&d, rec, "bitmap", Some(true), None, "record matching QNAME with bitmap [NS], QTYPE DS: the parent side is authoritative for DS");
+                    }
+                }
+                // an owner name without any label (the root): "record name format is invalid"
+                let mut c = genuine.clone();
+                c.recs[0].owner = Name::root();
+                run_expect(&c, rec, "ownerbase", None, Some("bogus"), "an NSEC3 record owned by the root name has no hash label");
             }
             // ---- ownerbase: flags cleared except the decisive one of the Opt-Out DS proof
             let mut genuine = b.case.clone();
@@ -1678,6 +1861,7 @@ pub fn run(o: &Opts, rec: &mut Recorder) {
     }
     enumerate(o, rec);
     e2e::run(o, rec);
+    e2e::run_hl(rec);
 }
 
 // ------------------------------------------------------------------ end to end (server proofs)
@@ -1742,24 +1926,63 @@ mod e2e {
         anchors: Arc<TrustAnchors>,
     }
 
-    /// in-process `DnsHandle`: one request → the catalog's response
+    /// what the upstream does with the catalog's answer to one query (handle-level families)
+    type Mutator = Arc<dyn Fn(&Query, DnsResponse) -> DnsResponse + Send + Sync>;
+
+    /// in-process `DnsHandle`: one request → the catalog's response.  `child`: a second catalog that
+    /// answers everything at or below `child.0` except DS queries for that name (as the child zone's
+    /// servers would); `mutate`: applied to the answer (a hostile or broken upstream).
     #[derive(Clone)]
-    struct CatalogHandle(Arc<Catalog>);
+    struct CatalogHandle {
+        catalog: Arc<Catalog>,
+        child: Option<(Name, Arc<Catalog>)>,
+        mutate: Option<Mutator>,
+        /// deliver negative responses the way a resolver-like upstream does: as
+        /// `Err(NetError::Dns(DnsError::NoRecordsFound(..)))` carrying the authority section
+        negative_as_error: bool,
+    }
+
+    impl CatalogHandle {
+        fn plain(catalog: Arc<Catalog>) -> Self {
+            Self { catalog, child: None, mutate: None, negative_as_error: false }
+        }
+    }
+
+    async fn ask_catalog(catalog: &Catalog, request: &DnsRequest) -> Result<DnsResponse, NetError> {
+        let bytes = request.to_bytes().map_err(|e| NetError::from(format!("encode: {e}")))?;
+        let addr: SocketAddr = "127.0.0.1:5353".parse().unwrap();
+        let req = Request::from_bytes(bytes, addr, Protocol::Tcp).map_err(|e| NetError::from(format!("request: {e}")))?;
+        let cap = Capture::default();
+        catalog.handle_request::<_, TokioTime>(&req, cap.clone()).await;
+        let buf = cap.0.lock().unwrap().clone();
+        DnsResponse::from_buffer(buf).map_err(|e| NetError::from(format!("decode: {e}")))
+    }
 
     impl DnsHandle for CatalogHandle {
         type Response = Pin<Box<dyn Stream<Item = Result<DnsResponse, NetError>> + Send>>;
         type Runtime = TokioRuntimeProvider;
 
         fn send(&self, request: DnsRequest) -> Self::Response {
-            let catalog = self.0.clone();
+            let me = self.clone();
             Box::pin(stream::once(async move {
-                let bytes = request.to_bytes().map_err(|e| NetError::from(format!("encode: {e}")))?;
-                let addr: SocketAddr = "127.0.0.1:5353".parse().unwrap();
-                let req = Request::from_bytes(bytes, addr, Protocol::Tcp).map_err(|e| NetError::from(format!("request: {e}")))?;
-                let cap = Capture::default();
-                catalog.handle_request::<_, TokioTime>(&req, cap.clone()).await;
-                let buf = cap.0.lock().unwrap().clone();
-                DnsResponse::from_buffer(buf).map_err(|e| NetError::from(format!("decode: {e}")))
+                let query = request.queries.first().cloned();
+                let catalog = match (&me.child, &query) {
+                    (Some((cn, cc)), Some(q)) if cn.zone_of(&q.name) && !(q.query_type == RecordType::DS && q.name == *cn) => cc.clone(),
+                    _ => me.catalog.clone(),
+                };
+                let resp = ask_catalog(&catalog, &request).await?;
+                let resp = match (&me.mutate, &query) {
+                    (Some(m), Some(q)) => m(q, resp),
+                    _ => resp,
+                };
+                if me.negative_as_error && resp.answers.is_empty() {
+                    if let Some(q) = query {
+                        let mut nr = hickory_net::NoRecords::new(q, resp.metadata.response_code);
+                        nr.authorities = Some(resp.authorities.iter().cloned().collect());
+                        return Err(NetError::Dns(hickory_net::DnsError::NoRecordsFound(nr)));
+                    }
+                }
+                Ok(resp)
             }))
         }
     }
@@ -1776,6 +1999,11 @@ mod e2e {
     }
 
     fn build(z: &ZoneSpec) -> Option<Srv> {
+        build_with(z, &[]).map(|x| x.0)
+    }
+
+    /// `extra`: further records upserted before signing (the real DS of a signed child zone)
+    fn build_with(z: &ZoneSpec, extra: &[Record]) -> Option<(Srv, DNSKEY)> {
         let mut h = InMemoryZoneHandler::<TokioRuntimeProvider>::empty(
             z.apex.clone(),
             ZoneType::Primary,
@@ -1801,22 +2029,35 @@ mod e2e {
                 }
             }
         }
+        for r in extra {
+            h.upsert_mut(r.clone(), 0);
+        }
         let key = Ed25519SigningKey::from_pkcs8(&Ed25519SigningKey::generate_pkcs8().ok()?).ok()?;
         let public = key.to_public_key().ok()?;
         let key: Box<dyn SigningKey> = Box::new(key);
-        h.add_zone_signing_key_mut(DnssecSigner::new(DNSKEY::from_key(&public), key, z.apex.clone(), Duration::from_secs(86400))).ok()?;
+        let dnskey = DNSKEY::from_key(&public);
+        h.add_zone_signing_key_mut(DnssecSigner::new(dnskey.clone(), key, z.apex.clone(), Duration::from_secs(86400))).ok()?;
         h.secure_zone_mut().ok()?;
         let mut catalog = Catalog::new();
         catalog.upsert(z.apex.clone().into(), vec![Arc::new(h)]);
         let mut anchors = TrustAnchors::empty();
         anchors.insert(&public);
-        Some(Srv { catalog: Arc::new(catalog), anchors: Arc::new(anchors) })
+        Some((Srv { catalog: Arc::new(catalog), anchors: Arc::new(anchors) }, dnskey))
+    }
+
+    /// verdict class of the validator when the same upstream delivers negative responses as
+    /// `NoRecordsFound` errors (the path `verify_response` translates back into a message)
+    fn ask_as_error(rt: &tokio::runtime::Runtime, srv: &Srv, q: &Name, t: u16) -> String {
+        let mut inner = CatalogHandle::plain(srv.catalog.clone());
+        inner.negative_as_error = true;
+        let handle = DnssecDnsHandle::with_trust_anchor(inner, srv.anchors.clone());
+        classify(&send_through(rt, &handle, q, t, None))
     }
 
     /// (raw response with DO set, verdict of the validator: Ok / error text)
     fn ask(rt: &tokio::runtime::Runtime, srv: &Srv, q: &Name, t: u16) -> (Option<DnsResponse>, Result<DnsResponse, String>) {
         rt.block_on(async {
-            let inner = CatalogHandle(srv.catalog.clone());
+            let inner = CatalogHandle::plain(srv.catalog.clone());
             let mut opts = DnsRequestOptions::default();
             opts.use_edns = true;
             opts.edns_set_dnssec_ok = true;
@@ -1874,6 +2115,9 @@ mod e2e {
                 z.names.insert(rel_name(&apex, &[b"b"]), [T_CNAME].into_iter().collect());
                 z.names.insert(rel_name(&apex, &[b"a"]), [T_NS].into_iter().collect());
                 z.names.insert(rel_name(&apex, &[b"a", b"b"]), [T_NS, T_DS].into_iter().collect());
+                // glue below the two cuts: must not get NSEC3 records, queries for it are referrals
+                z.names.insert(rel_name(&apex, &[b"b", b"a"]), [T_A].into_iter().collect());
+                z.names.insert(rel_name(&apex, &[b"b", b"a", b"b"]), [T_A].into_iter().collect());
             }
             let Some(srv) = build(&z) else {
                 rec.stat("e2e.zone-build-failed");
@@ -2024,6 +2268,15 @@ mod e2e {
             return;
         }
         rec.stat(&format!("e2e.validator.negative-or-wildcard.{vtag}"));
+        // the same negative response delivered as a NoRecordsFound error must get the same treatment
+        if n_answers == 0 {
+            let as_err = ask_as_error(rt, srv, q, t);
+            let same = as_err.starts_with("ok") == validated.is_ok();
+            rec.stat(&format!("e2e.validator.negative-as-error.{}", if same { "same-verdict" } else { "different-verdict" }));
+            if !same {
+                fail_srv(rec, z, q, t, format!("the server's negative response for {q} type {t} is {} when delivered as a message but {as_err} when the upstream delivers it as Err(NoRecordsFound) with the same authority section", vtag), "");
+            }
+        }
         if direct != Proof::Secure {
             fail_srv(
                 rec,
@@ -2042,6 +2295,310 @@ mod e2e {
                 format!("completeness: DnssecDnsHandle rejects the server's response for {} type {} (rcode {}, {} answers) although verify_nsec3 says Secure: {e} — zone {}", q, t, rcode, n_answers, describe_spec(z)),
                 "",
             );
+        }
+    }
+
+    // -------------------------------------------------------------- handle-level families (`hl …` lines)
+    //
+    // Everything here goes through `DnssecDnsHandle::send` (hence `clone_with_context` and
+    // `verify_response`) with NON-DEFAULT configuration or a hostile upstream; expectations by construction.
+    //   hl limits <soft|-> <hard|-> <iterations> <0 top level | 1 nested no-DS proof | 2 signed child via DS chain>   configured NSEC3 iteration limits must reach
+    //        verify_nsec3, at the top level and in the nested DS lookup for an insecure child zone
+    //   hl config <anchors-wrong|anchors-default|cache1|ttl|depth0>   every other configurable field
+    //   hl inject <forged+sibling|forged-alone|genuine-only>   an UNSIGNED NSEC3 next to a signed RRset of the same owner
+
+    pub const CL_INJECT: &str = "unsigned-nsec3-used-because-sibling-rrset-of-same-owner-is-secure";
+
+    fn classify(r: &Result<DnsResponse, NetError>) -> String {
+        match r {
+            Ok(resp) => {
+                let all = || resp.answers.iter().chain(resp.authorities.iter());
+                if all().any(|r| r.proof == Proof::Secure) {
+                    "ok-secure".into()
+                } else if all().any(|r| r.proof == Proof::Bogus) {
+                    "ok-bogus".into()
+                } else if all().any(|r| r.proof == Proof::Insecure) {
+                    "ok-insecure".into()
+                } else {
+                    "ok-indeterminate".into()
+                }
+            }
+            Err(NetError::Dns(hickory_net::DnsError::Nsec { proof, .. })) => format!("err-nsec-{}", proof_str(*proof)),
+            Err(_) => "err-other".into(),
+        }
+    }
+
+    fn hl_zone(iterations: u16, wildcard: bool) -> ZoneSpec {
+        let apex = Name::from_ascii("z.").unwrap();
+        let mut names: BTreeMap<Lbls, BTreeSet<u16>> = BTreeMap::new();
+        names.insert(lbls(&apex), apex_types());
+        names.insert(rel_name(&apex, &[b"a"]), [T_A].into_iter().collect());
+        names.insert(rel_name(&apex, &[b"c"]), [T_NS].into_iter().collect()); // insecure delegation to the child zone c.z.
+        if wildcard {
+            names.insert(rel_name(&apex, &[b"*"]), [T_A].into_iter().collect());
+        }
+        ZoneSpec { apex, names, salt: vec![0xaa], iterations, opt_out: false }
+    }
+
+    /// the unsigned child zone c.z. with x.c.z. A
+    fn child_catalog() -> (Name, Arc<Catalog>) {
+        let apex = Name::from_ascii("c.z.").unwrap();
+        let mut h = InMemoryZoneHandler::<TokioRuntimeProvider>::empty(apex.clone(), ZoneType::Primary, AxfrPolicy::Deny, None);
+        let soa = SOA::new(Name::from_ascii("ns.elsewhere.").unwrap(), Name::from_ascii("h.elsewhere.").unwrap(), 1, 3600, 300, 3600000, 300);
+        h.upsert_mut(Record::from_rdata(apex.clone(), 300, RData::SOA(soa)), 0);
+        h.upsert_mut(Record::from_rdata(apex.clone(), 300, RData::NS(NS(Name::from_ascii("ns.elsewhere.").unwrap()))), 0);
+        h.upsert_mut(Record::from_rdata(Name::from_ascii("x.c.z.").unwrap(), 300, RData::A(A::new(192, 0, 2, 9))), 0);
+        let mut catalog = Catalog::new();
+        catalog.upsert(apex.clone().into(), vec![Arc::new(h)]);
+        (apex, Arc::new(catalog))
+    }
+
+    fn send_through(rt: &tokio::runtime::Runtime, handle: &DnssecDnsHandle<CatalogHandle>, q: &Name, t: u16, max_depth: Option<usize>) -> Result<DnsResponse, NetError> {
+        rt.block_on(async {
+            let mut opts = DnsRequestOptions::default();
+            opts.use_edns = true;
+            opts.edns_set_dnssec_ok = true;
+            opts.recursion_desired = false;
+            if let Some(d) = max_depth {
+                opts.max_request_depth = d;
+            }
+            match handle.send(DnsRequest::from_query(Query::new(q.clone(), RecordType::from(t)), opts)).next().await {
+                Some(r) => r,
+                None => Err(NetError::from("no result")),
+            }
+        })
+    }
+
+    fn hl_record(rec: &mut Recorder, line: String, got: &str, ok: bool, what: String, class: &str) {
+        if std::env::var_os("C09_HL_DEBUG").is_some() {
+            eprintln!("{line} => {got}");
+        }
+        rec.impl_only += 1;
+        let idx = rec.case(line, "~".into());
+        rec.nontrivial(idx);
+        rec.stat(&format!("hl.{}", if ok { "as-expected" } else { "unexpected" }));
+        rec.stat(&format!("hl.outcome.{got}"));
+        if !ok {
+            rec.fail(idx, what, class);
+        }
+    }
+
+    /// outcome of the nested scenario under the DEFAULT limits for an iteration count within both limits (0),
+    /// above the soft (1), above the hard limit (2)
+    fn nested_reference(rt: &tokio::runtime::Runtime, pos: usize) -> Option<String> {
+        thread_local! {
+            static REF: std::cell::RefCell<[Option<String>; 3]> = const { std::cell::RefCell::new([None, None, None]) };
+        }
+        if let Some(v) = REF.with(|r| r.borrow()[pos].clone()) {
+            return Some(v);
+        }
+        let z = hl_zone([15u16, 150, 600][pos], false);
+        let srv = build(&z)?;
+        let mut inner = CatalogHandle::plain(srv.catalog.clone());
+        inner.child = Some(child_catalog());
+        let handle = DnssecDnsHandle::with_trust_anchor(inner, srv.anchors.clone());
+        let got = classify(&send_through(rt, &handle, &Name::from_ascii("x.c.z.").unwrap(), T_A, None));
+        REF.with(|r| r.borrow_mut()[pos] = Some(got.clone()));
+        Some(got)
+    }
+
+    /// `hl limits … 2`: a SIGNED child zone s.z. (NSEC3 with `iterations`) under the signed parent z. (3
+    /// iterations, real DS of the child key); the trust anchor is the parent key, so a negative answer of the child
+    /// is validated through DS + DNSKEY lookups in nested clones and its NSEC3 proof with the configured limits.
+    fn hl_limits_chain(rec: &mut Recorder, rt: &tokio::runtime::Runtime, soft: Option<u16>, hard: Option<u16>, iterations: u16) -> Option<()> {
+        let child_apex = Name::from_ascii("s.z.").unwrap();
+        let mut cz = ZoneSpec { apex: child_apex.clone(), names: BTreeMap::new(), salt: vec![0xcc], iterations, opt_out: false };
+        cz.names.insert(lbls(&child_apex), apex_types());
+        cz.names.insert(rel_name(&child_apex, &[b"a"]), [T_A].into_iter().collect());
+        let (child, child_key) = build_with(&cz, &[])?;
+        let digest = child_key.to_digest(&child_apex, DigestType::SHA256).ok()?;
+        let ds = DS::new(child_key.calculate_key_tag().ok()?, Algorithm::ED25519, DigestType::SHA256, digest.as_ref().to_vec());
+        let mut pz = hl_zone(3, false);
+        pz.names.insert(lbls(&child_apex), [T_NS, T_DS].into_iter().collect());
+        // the placeholder DS of `rdata_for` is replaced by the real one (same RRset key: upsert appends, so build without it)
+        pz.names.insert(lbls(&child_apex), [T_NS].into_iter().collect());
+        let (parent, _) = build_with(&pz, &[Record::from_rdata(child_apex.clone(), 300, RData::DNSSEC(DNSSECRData::DS(ds)))])?;
+        let mut inner = CatalogHandle::plain(parent.catalog.clone());
+        inner.child = Some((child_apex.clone(), child.catalog.clone()));
+        let handle = DnssecDnsHandle::with_trust_anchor(inner, parent.anchors.clone()).nsec3_iteration_limits(soft, hard);
+        let (es, eh) = (soft.unwrap_or(100), hard.unwrap_or(500));
+        let want = if iterations > eh { "err-nsec-bogus" } else if iterations > es { "err-nsec-insecure" } else { "ok-secure" };
+        for (q, t) in [("b.s.z.", T_A), ("a.s.z.", T_TXT)] {
+            let got = classify(&send_through(rt, &handle, &Name::from_ascii(q).unwrap(), t, None));
+            hl_record(rec, format!("hl limits {} {} {} 2", opt_tok(&soft), opt_tok(&hard), iterations), &got, got == want, format!("handle configured with nsec3_iteration_limits({soft:?}, {hard:?}), signed child zone s.z. with {iterations} NSEC3 iterations below the trust anchor z. (DS + DNSKEY chain), {q} type {t}: DnssecDnsHandle::send gives {got}, expected {want}"), "");
+        }
+        Some(())
+    }
+
+    fn hl_limits(rec: &mut Recorder, rt: &tokio::runtime::Runtime, soft: Option<u16>, hard: Option<u16>, iterations: u16, nested: bool) -> Option<()> {
+        let z = hl_zone(iterations, false);
+        let srv = build(&z)?;
+        let mut inner = CatalogHandle::plain(srv.catalog.clone());
+        if nested {
+            inner.child = Some(child_catalog());
+        }
+        let handle = DnssecDnsHandle::with_trust_anchor(inner, srv.anchors.clone()).nsec3_iteration_limits(soft, hard);
+        let (es, eh) = (soft.unwrap_or(100), hard.unwrap_or(500));
+        let line = format!("hl limits {} {} {} {}", opt_tok(&soft), opt_tok(&hard), iterations, b(nested));
+        if nested {
+            // the no-DS proof for the insecure delegation c.z. is validated by a nested clone of the handle
+            // (request_depth > 0).  Expectation by construction: the outcome depends on the iteration count
+            // only through its position relative to the EFFECTIVE limits, so it must equal the outcome of the
+            // same scenario under the default limits (100 / 500) with an iteration count in the same position.
+            let got = classify(&send_through(rt, &handle, &Name::from_ascii("x.c.z.").unwrap(), T_A, None));
+            let pos = if iterations > eh { 2 } else if iterations > es { 1 } else { 0 };
+            let want = nested_reference(rt, pos)?;
+            hl_record(rec, line, &got, got == want, format!("handle configured with nsec3_iteration_limits({soft:?}, {hard:?}), parent zone signed with {iterations} NSEC3 iterations ({}), unsigned child answer for x.c.z. A through the nested DS lookup: got {got}, expected {want} (what the default limits give for an iteration count in the same position): the configured limits must reach nested clones of the handle", ["within both limits", "above the soft limit", "above the hard limit"][pos]), "");
+        } else {
+            let want = if iterations > eh { "err-nsec-bogus" } else if iterations > es { "err-nsec-insecure" } else { "ok-secure" };
+            for (q, t) in [("b.z.", T_A), ("a.z.", T_TXT)] {
+                let got = classify(&send_through(rt, &handle, &Name::from_ascii(q).unwrap(), t, None));
+                hl_record(rec, line.clone(), &got, got == want, format!("handle configured with nsec3_iteration_limits({soft:?}, {hard:?}), zone signed with {iterations} NSEC3 iterations, {q} type {t}: DnssecDnsHandle::send gives {got}, expected {want} (effective limits soft {es} / hard {eh})"), "");
+            }
+        }
+        Some(())
+    }
+
+    fn hl_config(rec: &mut Recorder, rt: &tokio::runtime::Runtime, field: &str) -> Option<()> {
+        let z = hl_zone(3, false);
+        let srv = build(&z)?;
+        let inner = CatalogHandle::plain(srv.catalog.clone());
+        let queries = [("b.z.", T_A), ("a.z.", T_TXT), ("a.z.", T_A)];
+        let base = DnssecDnsHandle::with_trust_anchor(inner.clone(), srv.anchors.clone());
+        let (handle, depth, must_validate): (DnssecDnsHandle<CatalogHandle>, Option<usize>, Option<bool>) = match field {
+            "anchors-wrong" => {
+                let other = Ed25519SigningKey::from_pkcs8(&Ed25519SigningKey::generate_pkcs8().ok()?).ok()?;
+                let mut ta = TrustAnchors::empty();
+                ta.insert(&other.to_public_key().ok()?);
+                (DnssecDnsHandle::with_trust_anchor(inner, Arc::new(ta)), None, Some(false))
+            }
+            "anchors-default" => (DnssecDnsHandle::new(inner), None, Some(false)),
+            "cache1" => (base.clone().validation_cache_size(1), None, Some(true)),
+            "ttl" => (base.clone().negative_validation_ttl(Duration::from_secs(1)..=Duration::from_secs(2)).positive_validation_ttl(Duration::from_secs(1)..=Duration::from_secs(2)), None, Some(true)),
+            "depth0" => (base.clone(), Some(0), Some(false)),
+            _ => return None,
+        };
+        for (q, t) in queries {
+            let got = classify(&send_through(rt, &handle, &Name::from_ascii(q).unwrap(), t, depth));
+            let ok = match must_validate {
+                Some(true) => got == "ok-secure",
+                Some(false) => got != "ok-secure",
+                None => true,
+            };
+            hl_record(rec, format!("hl config {field}"), &got, ok, format!("handle with non-default {field}: {q} type {t} gives {got}, expected {}", if must_validate == Some(true) { "ok-secure (as with the defaults)" } else { "anything but a validated answer (no usable trust anchor / no validation depth)" }), "");
+        }
+        Some(())
+    }
+
+    fn hl_inject(rec: &mut Recorder, rt: &tokio::runtime::Runtime, variant: &str) -> Option<()> {
+        // zone with an apex wildcard: ANY owner name L.z. has a genuinely signed (wildcard-expanded) A RRset
+        let z = hl_zone(2, true);
+        let srv = build(&z)?;
+        let plain = CatalogHandle::plain(srv.catalog.clone());
+        let l_name = Name::from_ascii("00000000000000000000000000000000.z.").unwrap();
+        let (apex_nodata, sibling) = rt.block_on(async {
+            let mut opts = DnsRequestOptions::default();
+            opts.use_edns = true;
+            opts.edns_set_dnssec_ok = true;
+            let a = plain.send(DnsRequest::from_query(Query::new(z.apex.clone(), RecordType::TXT), opts)).next().await.and_then(|r| r.ok());
+            let b_ = plain.send(DnsRequest::from_query(Query::new(l_name.clone(), RecordType::A), opts)).next().await.and_then(|r| r.ok());
+            (a, b_)
+        });
+        let (apex_nodata, sibling) = (apex_nodata?, sibling?);
+        // SOA + RRSIG + the apex NSEC3 + RRSIG (genuine, signed): closest encloser z.
+        let mut authorities: Vec<Record> = apex_nodata.authorities.to_vec();
+        let forged = Record::from_rdata(
+            l_name.clone(),
+            300,
+            RData::DNSSEC(DNSSECRData::NSEC3(NSEC3::new(Nsec3HashAlgorithm::SHA1, false, z.iterations, z.salt.clone(), vec![0xff; 20], Vec::<RecordType>::new()))),
+        );
+        match variant {
+            "forged+sibling" => {
+                // the signed wildcard-expanded A RRset of owner L.z. (answer section of `L.z. A`) + the unsigned NSEC3 of the same owner
+                authorities.extend(sibling.answers.iter().cloned());
+                authorities.push(forged);
+            }
+            "forged-alone" => authorities.push(forged),
+            "genuine-only" => {}
+            _ => return None,
+        }
+        let target = Name::from_ascii("a.z.").unwrap(); // exists, has A
+        let tq = target.clone();
+        let mutate: Mutator = Arc::new(move |q: &Query, resp: DnsResponse| {
+            if q.name == tq && q.query_type == RecordType::A {
+                let mut m = resp.into_message();
+                m.metadata.response_code = ResponseCode::NXDomain;
+                m.answers.clear();
+                m.additionals.clear();
+                m.authorities = authorities.clone();
+                DnsResponse::from_message(m).expect("response")
+            } else {
+                resp
+            }
+        });
+        let mut inner = CatalogHandle::plain(srv.catalog.clone());
+        inner.mutate = Some(mutate);
+        let handle = DnssecDnsHandle::with_trust_anchor(inner, srv.anchors.clone());
+        let got = classify(&send_through(rt, &handle, &target, T_A, None));
+        let ok = got != "ok-secure" && got != "ok-insecure";
+        hl_record(
+            rec,
+            format!("hl inject {variant}"),
+            &got,
+            ok,
+            format!("hostile upstream answers a.z. A (exists) with NXDOMAIN: SOA, the signed apex NSEC3 and an UNSIGNED NSEC3 <L>.z. -> ff.. covering a.z. and *.z. ({variant}); DnssecDnsHandle::send gives {got}, expected an error: an NSEC3 record without a valid signature of its own must not take part in a proof"),
+            if variant == "forged+sibling" { CL_INJECT } else { "" },
+        );
+        Some(())
+    }
+
+    pub fn exec_hl(t: &[&str], rec: &mut Recorder) -> Option<()> {
+        let rt = tokio::runtime::Builder::new_current_thread().enable_all().build().ok()?;
+        let optu = |x: &str| -> Option<Option<u16>> { if x == "-" { Some(None) } else { x.parse::<u16>().ok().map(Some) } };
+        match *t.get(1)? {
+            "limits" if *t.get(5)? == "2" => hl_limits_chain(rec, &rt, optu(t.get(2)?)?, optu(t.get(3)?)?, t.get(4)?.parse().ok()?),
+            "limits" => hl_limits(rec, &rt, optu(t.get(2)?)?, optu(t.get(3)?)?, t.get(4)?.parse().ok()?, *t.get(5)? == "1"),
+            "config" => hl_config(rec, &rt, t.get(2)?),
+            "inject" => hl_inject(rec, &rt, t.get(2)?),
+            _ => None,
+        }
+    }
+
+    pub fn run_hl(rec: &mut Recorder) {
+        let rt = tokio::runtime::Builder::new_current_thread().enable_all().build().unwrap();
+        // iterations between the configured and the default limits, in both directions, top level and nested
+        let limits: [(Option<u16>, Option<u16>, u16); 11] = [
+            (Some(10), None, 15),
+            (Some(10), Some(20), 25),
+            (None, Some(20), 25),
+            (Some(200), None, 150),
+            (Some(700), Some(800), 600),
+            (Some(10), Some(20), 5),
+            (None, None, 15),
+            (None, None, 150),
+            (None, None, 600),
+            (Some(0), Some(0), 0),
+            (Some(0), Some(0), 1),
+        ];
+        for (s_, h_, it) in limits {
+            for nested in [false, true] {
+                if hl_limits(rec, &rt, s_, h_, it, nested).is_none() {
+                    rec.stat("hl.setup-failed");
+                }
+            }
+            if hl_limits_chain(rec, &rt, s_, h_, it).is_none() {
+                rec.stat("hl.setup-failed");
+            }
+        }
+        for f in ["anchors-wrong", "anchors-default", "cache1", "ttl", "depth0"] {
+            if hl_config(rec, &rt, f).is_none() {
+                rec.stat("hl.setup-failed");
+            }
+        }
+        for v in ["forged+sibling", "forged-alone", "genuine-only"] {
+            if hl_inject(rec, &rt, v).is_none() {
+                rec.stat("hl.setup-failed");
+            }
         }
     }
 
